@@ -10,6 +10,7 @@
 (*           vals        : value tokens  name*100 + gen*10 + position-at-assignment, or NDV        *)
 (*           rd = FALSE  : reading .values raises (only ever produced by a named deviation)        *)
 (*   cached    : FALSE right after Reopen / CopyClearCache: the next operation starts from the file *)
+(*   twin      : the object under observation is the target of a masked Data.copy (only read back)  *)
 (*   partsRead : (curves) Curve.parts has been computed on this object since it was loaded - a pure *)
 (*               history marker: it makes the cover visit "parts read, removal, caches dropped"     *)
 (* The operations are written as pure operators  Op(S, args, D) -> [out, st]  where D is the set   *)
@@ -31,9 +32,10 @@ CONSTANTS
     Valueless,       \* TRUE: AddData may create a child without values
     CellMask,        \* TRUE: cell objects also offer copy(cell_mask=...)
     CopyClear,       \* TRUE: copy(clear_cache=True) and (curves) reading Curve.parts are offered
+    DataCopyDepth,   \* Data.copy(parent=twin, mask=...) is offered in states first reached after < DataCopyDepth operations
     Deviations       \* {} = the specification ; a subset of AsBuilt = geoh5py as built (negative controls)
 
-VARIABLES obj, expect, cexpect, ccoords, cached, partsRead, depth, last
+VARIABLES obj, expect, cexpect, ccoords, cached, partsRead, twin, depth, last
 
 NDV == 0 - 1
 AsBuilt == {"NoTouchRaises", "ValuelessChildBreaksRemoval", "RefusedAddLeavesChild", "EmptyValuesUnreadable"}
@@ -187,6 +189,17 @@ Reopen(S, D) ==
                         IF S.data[p].has /\ Len(S.data[p].vals) = 0 THEN [S.data[p] EXCEPT !.rd = FALSE] ELSE S.data[p]]]
               ELSE S)
 
+\* data.py:66-117 Data.copy(parent=twin, mask=...) of ONE child onto another object with the same geometry
+\* (twin = object.copy(copy_children=False)): the target has as many elements as the source array, so the
+\* array keeps its length and what the mask leaves out becomes no-data (:104-108) - it is not sub-sampled
+\* (:102-103 applies only when the target is smaller).  A mask of another shape is refused (:91-94).
+\* The twin, carrying that single child, becomes the object under observation.
+DataMaskedCopy(S, p, mask, D) ==
+    LET d == S.data[p] IN
+    IF Len(mask) # Len(d.vals) THEN Res("refused", S)
+    ELSE Res("ok", [S EXCEPT !.data = <<DataRec(d.name, d.assoc, TRUE,
+                                               [i \in DOMAIN d.vals |-> IF mask[i] THEN d.vals[i] ELSE NDV])>>])
+
 \* object.copy(clear_cache=True) (workspace.py:306-308 clear_array_attributes on the source, its children
 \* and the copy): the duplicate must equal the source, and the source - which stays the object under
 \* observation - must read everything back from the file.  Same observable effect as Reopen.
@@ -203,10 +216,18 @@ Lens(n) == {n, n + 1} \cup (IF n > 0 THEN {n - 1} ELSE {})
 IxSeqs(n) == UNION {[1..l -> 0..(n-1)] : l \in 1..MaxIx}           \* repeated, unsorted, first/last/all
              \cup {<<n>>} \cup (IF n > 0 THEN {<<0, n>>} ELSE {})  \* out of range: refused
 Masks(n) == [1..n -> BOOLEAN] \cup {[i \in 1..(n+1) |-> TRUE]} \cup (IF n > 0 THEN {[i \in 1..(n-1) |-> TRUE]} ELSE {})
+\* one element left out / one element kept (never all TRUE: that is a plain copy), plus one wrong length
+DataMasks(k) == {m \in [1..k -> BOOLEAN] : Cardinality({i \in 1..k : m[i]}) \in {1, k - 1} \ {k}}
+                \cup {[i \in 1..(k+1) |-> i # 1]}
 UsedNames(S) == {S.data[p].name : p \in DOMAIN S.data}
 PosOf(S, name) == CHOOSE p \in DOMAIN S.data : S.data[p].name = name
 
+FileActs(S) ==
+     (IF cached THEN {Act("Reopen")} ELSE {})
+  \cup (IF CopyClear /\ cached /\ (Arity # 2 \/ ChainLike(S)) THEN {Act("CopyClearCache")} ELSE {})
+
 Acts(S) ==
+    IF twin THEN FileActs(S) ELSE       \* the target of a data copy is only read back
     LET free == Names \ UsedNames(S) IN
        (IF free = {} THEN {}
         ELSE UNION {{[Act("AddData") EXCEPT !.name = MinOf(free), !.assoc = a, !.k = k] :
@@ -218,8 +239,11 @@ Acts(S) ==
         ELSE UNION {{[Act("RemoveCells") EXCEPT !.ix = ix, !.clear = c] : c \in Clears(ix)} : ix \in IxSeqs(Len(S.cells))})
   \cup {[Act("MaskedCopy") EXCEPT !.mask = m] : m \in Masks(Len(S.verts))}
   \cup (IF Arity = 0 \/ ~CellMask THEN {} ELSE {[Act("CellMaskedCopy") EXCEPT !.mask = m] : m \in [1..Len(S.cells) -> BOOLEAN]})
-  \cup (IF cached THEN {Act("Reopen")} ELSE {})
-  \cup (IF CopyClear /\ cached /\ (Arity # 2 \/ ChainLike(S)) THEN {Act("CopyClearCache")} ELSE {})
+  \cup FileActs(S)
+  \cup (IF depth >= DataCopyDepth THEN {}
+        ELSE UNION {{[Act("DataMaskedCopy") EXCEPT !.name = S.data[p].name, !.assoc = S.data[p].assoc, !.mask = m] :
+                        m \in DataMasks(Len(S.data[p].vals))} :
+                    p \in {q \in DOMAIN S.data : S.data[q].has /\ S.data[q].name # 0 /\ Len(S.data[q].vals) > 0}})
   \cup (IF CopyClear /\ Arity = 2 /\ ~partsRead THEN {Act("ReadParts")} ELSE {})
 
 Step(S, a, D) ==
@@ -231,6 +255,7 @@ Step(S, a, D) ==
       [] a.act = "CellMaskedCopy" -> CellMaskedCopy(S, a.mask, D)
       [] a.act = "Reopen"         -> Reopen(S, D)
       [] a.act = "CopyClearCache" -> CopyClearCache(S, D)
+      [] a.act = "DataMaskedCopy" -> DataMaskedCopy(S, PosOf(S, a.name), a.mask, D)
       [] a.act = "ReadParts"      -> Res("ok", S)          \* curve.py:128-157: computes and caches, changes nothing
 
 \* ---------------------------------------------------------------- what the harness sees
@@ -307,21 +332,23 @@ Init ==
         /\ ccoords = [c \in CIds |-> IF c <= Len(cs) THEN [a \in 1..Arity |-> cs[c][a] + 1] ELSE <<>>]
         /\ cached = TRUE
         /\ partsRead = FALSE
+        /\ twin = FALSE
         /\ depth = 0
         /\ last = [act |-> "Init", out |-> "ok"]
 
 Do(a) ==
     LET r == Step(obj, a, Deviations) IN
     /\ obj' = r.st
-    /\ IF a.act \in {"AddData", "SetValues"} /\ r.out = "ok" /\ r.st.data[PosOf(r.st, a.name)].has
+    /\ IF a.act \in {"AddData", "SetValues", "DataMaskedCopy"} /\ r.out = "ok" /\ r.st.data[PosOf(r.st, a.name)].has
        THEN /\ expect' = [expect EXCEPT ![a.name] = ExpectOf(r.st, PosOf(r.st, a.name), @)]
             /\ cexpect' = [cexpect EXCEPT ![a.name] = CExpectOf(r.st, PosOf(r.st, a.name), @)]
        ELSE UNCHANGED <<expect, cexpect>>
     /\ UNCHANGED ccoords
     /\ cached' = (a.act \notin {"Reopen", "CopyClearCache"})
+    /\ twin' = (twin \/ (a.act = "DataMaskedCopy" /\ r.out = "ok"))
     \* a re-opened object and a fresh (masked) copy have no parts cached; copy() reads the parts of its source
     /\ partsRead' = IF Arity # 2 THEN FALSE
-                    ELSE IF a.act = "Reopen" \/ (a.act \in {"MaskedCopy", "CellMaskedCopy"} /\ r.out = "ok") THEN FALSE
+                    ELSE IF a.act = "Reopen" \/ (a.act \in {"MaskedCopy", "CellMaskedCopy", "DataMaskedCopy"} /\ r.out = "ok") THEN FALSE
                     ELSE IF a.act \in {"ReadParts", "CopyClearCache"} THEN TRUE
                     ELSE partsRead
     /\ depth' = depth + 1
@@ -335,7 +362,7 @@ Do(a) ==
 Next == \E a \in Acts(obj) :
             (depth < MaxDepth \/ (depth = MaxDepth /\ a.act \in {"Reopen", "CopyClearCache"})) /\ Do(a)
 
-vars == <<obj, expect, cexpect, ccoords, cached, partsRead, depth, last>>
+vars == <<obj, expect, cexpect, ccoords, cached, partsRead, twin, depth, last>>
 Spec == Init /\ [][Next]_vars
 
 \* ---------------------------------------------------------------- the property (C07)
@@ -362,9 +389,9 @@ OnlySurvivors == [][/\ IxSet(obj'.verts) \subseteq IxSet(obj.verts)
                     /\ IxSet(obj'.cids) \subseteq IxSet(obj.cids)]_vars
 
 \* ---------------------------------------------------------------- export (harness/README.md)
-vw == <<View(obj), cached, partsRead>>
+vw == <<View(obj), cached, partsRead, twin>>
 ExportState == PrintT(<<"ST", TLCFP(vw), TLCFP(<<vw, 1>>),
                         ToJson([verts |-> obj.verts, cells |-> obj.cells, data |-> obj.data, cached |-> cached,
-                                partsRead |-> partsRead])>>)
+                                partsRead |-> partsRead, twin |-> twin])>>)
 ExportTrans == PrintT(<<"TR", TLCFP(vw), TLCFP(<<vw, 1>>), TLCFP(vw'), TLCFP(<<vw', 1>>), ToJson(last')>>)
 =============================================================================
